@@ -97,6 +97,7 @@ var cfgs = map[string]cfgDef{
 	"checkptr": {"checkptr", ""},
 	"asan":     {"asan", ""},
 	"cover":    {"cover", ""},
+	"fuzz":     {"fuzz", ""},
 }
 
 var (
@@ -463,6 +464,16 @@ func run(id, tier string, seed int64, rp *Replay, only, onlyCfg string, par int)
 			}
 		case "timeout":
 			inconclusive = append(inconclusive, fmt.Sprintf("watchdog expired for %s (in flight: %s)", j.id, inflightNames(j.inflt)))
+		case "fuzzfail":
+			vs, note := fuzzCrashers(j, bdir, id)
+			for _, v := range vs {
+				addV(v, j, 1)
+			}
+			if len(vs) == 0 {
+				// the engine stopped without a reproducible failing input (worker
+				// killed, engine error): recorded, neither a violation nor a verdict
+				notes = append(notes, fmt.Sprintf("fuzz engine stopped in %s without a reproducible failing input: %s", j.id, note))
+			}
 		case "testfail":
 			inconclusive = append(inconclusive, fmt.Sprintf("harness self-check failed in %s: %s", j.id, tailStr(j.tail, 600)))
 		default:
@@ -693,6 +704,8 @@ func build(u *Unit, kind, bin, bdir, overlay string) (string, error) {
 		args = append(args, "-gcflags=all=-d=checkptr")
 	case "asan":
 		args = append(args, "-asan")
+	case "fuzz":
+		args = append(args, "-fuzz", "FuzzVerif")
 	case "cover":
 		cp := "./..."
 		if len(coverPkgList) > 0 {
@@ -727,6 +740,15 @@ func runJob(j *job, bdir, tier string, seed int64) {
 	ctx, cancel := context.WithCancel(context.Background())
 	defer cancel()
 	args := []string{"-test.run", j.batch, "-test.timeout", "0", "-test.count", "1"}
+	if j.cfg == "fuzz" {
+		// native fuzzing: a fixed number of executions (never a time budget)
+		n := os.Getenv("VERIF_FUZZ_EXECS")
+		if n == "" {
+			n = "400000"
+		}
+		args = []string{"-test.run", "^$", "-test.fuzz", "^" + j.batch + "$", "-test.fuzztime", n + "x",
+			"-test.fuzzcachedir", filepath.Join(rdir, j.id+".fuzzcache"), "-test.timeout", "0", "-test.parallel", "16"}
+	}
 	if cfgs[j.cfg].build == "cover" {
 		args = append(args, "-test.coverprofile", filepath.Join(rdir, j.id+".cover"))
 	}
@@ -780,6 +802,13 @@ func runJob(j *job, bdir, tier string, seed int64) {
 		if json.Unmarshal(rb, &r) == nil {
 			j.res = &r
 		}
+	}
+	if j.cfg == "fuzz" && !timedOut {
+		j.status = "ok"
+		if err != nil {
+			j.status = "fuzzfail"
+		}
+		return
 	}
 	switch {
 	case timedOut:
@@ -1020,4 +1049,76 @@ func c14Diff(jobs []*job, bdir, id string) []vj {
 		}
 	}
 	return out
+}
+
+// ---------------------------------------------------------------- native fuzzing
+
+// fuzzCrashers reads the failing inputs the fuzz engine wrote to
+// run/testdata/fuzz/<target>/, re-runs each one alone (the compiled binary
+// executes the files of that directory as regression seeds) and returns a
+// violation per input that fails again.
+func fuzzCrashers(j *job, bdir, id string) ([]Violation, string) {
+	rdir := filepath.Join(bdir, "run")
+	dir := filepath.Join(rdir, "testdata", "fuzz", j.batch)
+	files, _ := filepath.Glob(filepath.Join(dir, "*"))
+	if len(files) == 0 {
+		return nil, tailStr(j.tail, 400)
+	}
+	var names []string
+	if b, err := os.ReadFile(filepath.Join(rdir, "fuzz-entries.json")); err == nil {
+		_ = json.Unmarshal(b, &names)
+	}
+	var out []Violation
+	for _, f := range files {
+		b, err := os.ReadFile(f)
+		if err != nil {
+			continue
+		}
+		sel, data := parseFuzzFile(string(b))
+		entry := "?"
+		if len(names) > 0 && sel >= 0 {
+			entry = names[sel%len(names)]
+		}
+		cmd := exec.Command(j.bin, "-test.run", "^"+j.batch+"$/"+filepath.Base(f), "-test.timeout", "120s")
+		cmd.Dir = rdir
+		cmd.Env = append(os.Environ(), "VERIF_OUT="+rdir, "VERIF_ROOT="+verifRoot, "VERIF_REPO="+repoRoot, "VERIF_TIER=thorough", "VERIF_SEED=1",
+			"VERIF_RESULT="+filepath.Join(rdir, j.id+".replay.result.json"), "VERIF_JOURNAL="+filepath.Join(rdir, j.id+".replay.journal"))
+		ob, rerr := cmd.CombinedOutput()
+		if rerr == nil || !strings.Contains(string(ob), "panic") {
+			continue // does not fail again on its own: not reported
+		}
+		cls := "panic"
+		switch {
+		case strings.Contains(string(ob), "nil pointer"):
+			cls = "nil-deref"
+		case strings.Contains(string(ob), "out of range"):
+			cls = "index-out-of-range"
+		case strings.Contains(string(ob), "divide by zero"):
+			cls = "div-by-zero"
+		}
+		out = append(out, Violation{Key: id + ":panic:" + entry + ":" + cls, Monitor: j.batch,
+			Detail: map[string]any{"entry": entry, "input": hex.EncodeToString(data), "input_len": len(data), "found_by": "go native fuzzing (minimised by the engine)",
+				"corpus_file": f, "replay_output": tailStr(string(ob), 3000), "cfg": j.cfg}})
+	}
+	return out, "failing inputs did not fail again"
+}
+
+// parseFuzzFile reads the "go test fuzz v1" encoding of (uint16, []byte).
+func parseFuzzFile(s string) (int, []byte) {
+	sel := -1
+	var data []byte
+	for _, l := range strings.Split(s, "\n") {
+		l = strings.TrimSpace(l)
+		switch {
+		case strings.HasPrefix(l, "uint16(") && strings.HasSuffix(l, ")"):
+			if n, err := strconv.ParseInt(l[7:len(l)-1], 0, 32); err == nil {
+				sel = int(n)
+			}
+		case strings.HasPrefix(l, "[]byte(") && strings.HasSuffix(l, ")"):
+			if q, err := strconv.Unquote(l[7 : len(l)-1]); err == nil {
+				data = []byte(q)
+			}
+		}
+	}
+	return sel, data
 }
